@@ -406,6 +406,32 @@ fn define_trait_impl(
     );
 }
 
+/// Whether `method` is already defined under the other kind of key for the same type
+/// constructor: under `Constr(C)` when `key` is `Exact` of an instance of `C`, under `Exact` of
+/// some instance of `C` when `key` is `Constr(C)`.
+fn inherent_method_overlaps(
+    env: &PackageTypeEnv,
+    key: &env::InherentImplKey,
+    for_ty: &tast::Ty,
+    method: &str,
+) -> bool {
+    let impls = &env.current().trait_env.inherent_impls;
+    match key {
+        env::InherentImplKey::Exact(_) => {
+            super::util::try_constr_name(for_ty).is_some_and(|constr| {
+                impls
+                    .get(&env::InherentImplKey::Constr(constr))
+                    .is_some_and(|def| def.methods.contains_key(method))
+            })
+        }
+        env::InherentImplKey::Constr(constr) => impls.iter().any(|(other, def)| {
+            matches!(other, env::InherentImplKey::Exact(ty)
+                if super::util::try_constr_name(ty).as_deref() == Some(constr.as_str()))
+                && def.methods.contains_key(method)
+        }),
+    }
+}
+
 fn define_inherent_impl(
     env: &mut PackageTypeEnv,
     diagnostics: &mut Diagnostics,
@@ -482,6 +508,20 @@ fn define_inherent_impl(
                 Severity::Error,
                 format!(
                     "Method {} is already defined for {:?}",
+                    method_name_str, for_ty
+                ),
+            ));
+            continue;
+        }
+        // A method may not be defined both for an instance of a generic type (`impl Box[int32]`)
+        // and for the generic type itself (`impl[T] Box[T]`): method lookup prefers the one,
+        // specialised code calls the other.
+        if inherent_method_overlaps(env, &key, &for_ty, &method_name_str) {
+            diagnostics.push(Diagnostic::new(
+                Stage::Typer,
+                Severity::Error,
+                format!(
+                    "Method {} for {:?} overlaps a definition for the generic type or one of its instances",
                     method_name_str, for_ty
                 ),
             ));
